@@ -342,6 +342,9 @@ func TestCheck(t *testing.T) {
 	run.Assume("the forms-model self-validation writes harness-made SQL values only (never thunder output) into the binlog file parsed by go-mysql")
 	run.Assume("UPDATE rows events with two different images (one case in two): x and a transition of x (each non-key column unchanged / to NULL or zero / from NULL to a value / to an unrelated row's value / map with extra keys / slice shrunk to empty), " +
 		"in either order, one or two pairs per event, v1 and v2; column types are the fields' natural ones; a dependency made of all column values of each image (as BuildStruct decodes that image alone) must be invalidated for both images")
+	run.Assume("json columns with untyped slots (tags table: map[string]interface{}, []interface{}, struct and *struct with interface{} / map / list members, a bare interface{} field; nested to depth 2) hold exactly what encoding/json itself puts into an interface{}: " +
+		"float64 (integral, fractional, > 2^53, negative, exponent-sized), bool, nil, strings incl. number-looking ones, nested lists and maps; compared with reflect.DeepEqual on the Go values in every source form, through batches, testers and FilterFromProto; " +
+		"Go integers or typed nils inside an interface{} are not generated (JSON cannot return them)")
 	run.Assume("models_a / models_b: column types are distinct named types with identical reflect.Type.String() (c13/a/models and c13/b/models, function-local types called Level), partly of different kinds; the registration order of all tables is a permutation drawn from the seed")
 	run.Assume("filters (3 per case over 0..all columns; rows R = x, an unrelated row and two hybrids, each as decoded from MySQL's text form): judged when every value denotes a value of its column's Go type " +
 		"(own value, pointer to / dereferenced value, typed or untyped nil, the same integer in another Go integer type, the plain column's driver value); filters with a foreign-typed, out-of-range or inexact value, " +
